@@ -106,7 +106,25 @@ func c11exec(j run.Job, a *run.Acc) {
 			pos += len(c) + 1
 		}
 		seen := map[string]int{}
+		// the order in which positions are looked up must not matter: ascending, descending and shuffled sweeps
+		order := make([]int, 0, 3*(pos+3))
 		for p := 0; p < pos+3; p++ {
+			order = append(order, p)
+		}
+		for p := pos + 2; p >= 0; p-- {
+			order = append(order, p)
+		}
+		sh := rand.New(rand.NewSource(int64(pos)*7919 + int64(len(raws))))
+		for _, p := range sh.Perm(pos + 3) {
+			order = append(order, p)
+		}
+		type heldPos struct {
+			p    int
+			obj  parsley.Position
+			want string
+		}
+		var held []heldPos
+		for qi, p := range order {
 			a.Count("global positions queried", 1)
 			got := func() (s string) {
 				defer func() {
@@ -114,7 +132,12 @@ func c11exec(j run.Job, a *run.Acc) {
 						s = fmt.Sprint("PANIC ", r)
 					}
 				}()
-				return fs.Position(parsley.Pos(p)).String()
+				obj := fs.Position(parsley.Pos(p))
+				s = obj.String()
+				if len(held) < 400 {
+					held = append(held, heldPos{p, obj, s})
+				}
+				return s
 			}()
 			want, ok := exp[p]
 			if !ok {
@@ -124,13 +147,21 @@ func c11exec(j run.Job, a *run.Acc) {
 			if got != want {
 				a.Violate("FileSet.Position", "FileSet.Position", desc(map[string]any{"global_pos": p, "got": got, "want": want}))
 			}
-			if ok {
+			if ok && qi < pos+3 {
 				if q, dup := seen[got]; dup {
 					a.Violate("not-injective", "not-injective", desc(map[string]any{"positions": []int{q, p}, "both_render_as": got}))
 				}
 				seen[got] = p
 			}
 		}
+		// a Position handed out earlier must still read the same after all the later lookups
+		for _, h := range held {
+			if now := h.obj.String(); now != h.want {
+				a.Violate("position-object-changed-after-later-lookups", "position-object-changed-after-later-lookups", desc(map[string]any{"global_pos": h.p, "was": h.want, "now": now}))
+				break
+			}
+		}
+		a.Count("position objects re-read after all lookups", int64(len(held)))
 		if k >= 2 {
 			a.NonTrivial(fmt.Sprintf("%q", raws))
 			a.Sample("file set", desc(map[string]any{"positions": pos + 2}))
